@@ -454,12 +454,26 @@ struct PeerLog {
 /// reads the client's bytes, answers Syn with SynAck at once and the k-th HeartRequest after
 /// `script[k]` ms (None / beyond the script: never)
 async fn scripted_peer(
+    r: BoxR,
+    w: RecWriter,
+    preamble: bool,
+    script: Vec<Option<u64>>,
+    start: Instant,
+    log: Arc<Mutex<PeerLog>>,
+) {
+    scripted_peer_opt(r, w, preamble, script, start, log, false).await
+}
+
+/// `vanish`: once the script is exhausted the peer stops reading for ever without closing anything (a host that
+/// disappeared: the client's bounded transport fills up and its writes stay pending)
+async fn scripted_peer_opt(
     mut r: BoxR,
     w: RecWriter,
     preamble: bool,
     script: Vec<Option<u64>>,
     start: Instant,
     log: Arc<Mutex<PeerLog>>,
+    vanish: bool,
 ) {
     let w = Arc::new(tokio::sync::Mutex::new(w));
     let mut buf = BytesMut::new();
@@ -467,6 +481,9 @@ async fn scripted_peer(
     let mut need_preamble = preamble;
     let mut k = 0usize;
     loop {
+        if vanish && k >= script.len() {
+            std::future::pending::<()>().await;
+        }
         let n = match r.read_buf(&mut buf).await {
             Ok(n) => n,
             Err(_) => 0,
@@ -570,10 +587,10 @@ fn hb(args: &[&str]) -> String {
         let session: Arc<Session>;
         let mut _keep: Vec<Arc<Stream>> = Vec::new();
         let mut _client: Option<Arc<Client>> = None;
-        if mode == "s" {
+        if mode == "s" || mode == "z" {
             let (c2s_w, c2s_r) = c2s_transport(cap);
             let (s2c_w, _h2, s2c_r, _tx2) = transport::pipe();
-            tokio::spawn(scripted_peer(c2s_r, s2c_w, false, script, start, log.clone()));
+            tokio::spawn(scripted_peer_opt(c2s_r, s2c_w, false, script, start, log.clone(), mode == "z"));
             let s = Arc::new(Session::new_client(
                 s2c_r,
                 c2s_w,
